@@ -143,7 +143,16 @@ def analyse_lexer(F, fns, struct, field, r):
             # locals are tracked; behind `self` only the error slot is
             return ".*" not in k or k == skey or k.startswith(skey + ".")
 
-        it = ai.Interp(f, hooks={"on_assign": on_assign, "on_call": on_call, "track": track}, init_env=init_env)
+        def on_switch(interp, env, ts, bi, t, d):
+            # a branch on a logging level (expansion of log's trace! / debug! ...) touches nothing tracked: follow the disabled edge only
+            ex = t.get("exp") or []
+            if any(m in ("trace", "debug", "info", "warn", "error", "log") or m.endswith("::log") or m.endswith("::__log") for m in ex):
+                for v, bb in t["targets"]:
+                    if v == 0:
+                        return [(bb, dict(env), ts)]
+            return None
+
+        it = ai.Interp(f, hooks={"on_assign": on_assign, "on_call": on_call, "track": track, "on_switch": on_switch}, init_env=init_env, cap=60000)
         it.run()
         examined += it.visited
         seen = set()
